@@ -83,11 +83,13 @@ def Hub.set (h : Hub) (ch : String) (c : ChanState) : Hub :=
   { h with chans := fun x => if x = ch then c else h.chans x,
            known := if ch ∈ h.known then h.known else h.known ++ [ch] }
 
+/-- `historyMetaTTL := opts…MetaTTL; if historyMetaTTL == 0 { historyMetaTTL = h.historyMetaTTL }` -/
+def Hub.effMeta (h : Hub) (metaTTL : Nat) : Nat := if metaTTL = 0 then h.metaTTL else metaTTL
+
 /-- the meta-deadline refresh shared by `add` and `getLocked` -/
 def Hub.touchMeta (h : Hub) (ch : String) (metaTTL : Nat) (nowS : Nat) : Hub :=
-  let m := if metaTTL = 0 then h.metaTTL else metaTTL
-  if m > 0 then
-    let removeAt := nowS + m / 1000
+  if h.effMeta metaTTL > 0 then
+    let removeAt := nowS + h.effMeta metaTTL / 1000
     let c := h.chans ch
     let c' := { c with removes := some removeAt,
                        remQ := if c.removes.isNone then some removeAt else c.remQ }
@@ -106,10 +108,8 @@ def Hub.touchExpire (h : Hub) (ch : String) (ttl : Nat) (nowS : Nat) : Hub :=
     nextExpireCheck :=
       if h.nextExpireCheck = 0 ∨ h.nextExpireCheck > expireAt then expireAt else h.nextExpireCheck }
 
-/-- `historyHub.getLocked` -/
-def Hub.get (h : Hub) (ch : String) (f : Filter) (metaTTL : Nat) (nowS : Nat) :
-    Hub × List (Item Pub) × Pos :=
-  let h := h.touchMeta ch metaTTL nowS
+/-- `historyHub.getLocked` after the meta-deadline refresh -/
+def Hub.getCore (h : Hub) (ch : String) (f : Filter) : Hub × List (Item Pub) × Pos :=
   let c := h.chans ch
   match c.stream with
   | none =>
@@ -129,6 +129,11 @@ def Hub.get (h : Hub) (ch : String) (f : Filter) (metaTTL : Nat) (nowS : Nat) :
           if f.reverse then (if since.offset = 0 then u64 - 1 else since.offset - 1)
           else (since.offset + 1) % u64
         (h, s.get streamOffset true f.limit f.reverse, pos)
+
+/-- `historyHub.getLocked` -/
+def Hub.get (h : Hub) (ch : String) (f : Filter) (metaTTL : Nat) (nowS : Nat) :
+    Hub × List (Item Pub) × Pos :=
+  (h.touchMeta ch metaTTL nowS).getCore ch f
 
 /-- `PublishOptions` (the fields the memory broker reads) -/
 structure PubOpts where
@@ -152,16 +157,9 @@ structure AddOut where
   skip : Bool
 deriving Repr, DecidableEq
 
-/-- `historyHub.add` -/
-def Hub.add (h : Hub) (ch : String) (pub : Pub) (o : PubOpts) (nowS : Nat) : Hub × AddOut :=
-  let hp : Hub × Option (Item Pub) :=
-    if o.useDelta then
-      let r := h.get ch { limit := 1, reverse := true } o.metaTTL nowS
-      (r.1, r.2.1.head?)
-    else (h, none)
-  let h := hp.1
-  let h := h.touchExpire ch o.ttl nowS
-  let h := h.touchMeta ch o.metaTTL nowS
+/-- `historyHub.add` after the delta read and the deadline refreshes: version check, then `Add` -/
+def Hub.addCore (h : Hub) (ch : String) (pub : Pub) (o : PubOpts) (prev : Option (Item Pub)) :
+    Hub × AddOut :=
   let c := h.chans ch
   match c.stream with
   | some s =>
@@ -169,12 +167,24 @@ def Hub.add (h : Hub) (ch : String) (pub : Pub) (o : PubOpts) (nowS : Nat) : Hub
       (h, ⟨⟨s.top, s.epoch⟩, none, true⟩)
     else
       let r := s.add pub o.size o.version o.versionEpoch
-      (h.set ch { c with stream := some r.1 }, ⟨⟨r.2, r.1.epoch⟩, hp.2, false⟩)
+      (h.set ch { c with stream := some r.1 }, ⟨⟨r.2, r.1.epoch⟩, prev, false⟩)
   | none =>
     let s : MStream Pub := MStream.new h.nextEpoch
     let r := s.add pub o.size o.version o.versionEpoch
     ({ (h.set ch { c with stream := some r.1 }) with nextEpoch := h.nextEpoch + 1 },
-      ⟨⟨r.2, r.1.epoch⟩, hp.2, false⟩)
+      ⟨⟨r.2, r.1.epoch⟩, prev, false⟩)
+
+/-- the optional delta read at the start of `historyHub.add`: hub afterwards and `prevPub` -/
+def Hub.deltaRead (h : Hub) (ch : String) (o : PubOpts) (nowS : Nat) : Hub × Option (Item Pub) :=
+  if o.useDelta then
+    let r := h.get ch { limit := 1, reverse := true } o.metaTTL nowS
+    (r.1, r.2.1.head?)
+  else (h, none)
+
+/-- `historyHub.add` -/
+def Hub.add (h : Hub) (ch : String) (pub : Pub) (o : PubOpts) (nowS : Nat) : Hub × AddOut :=
+  let hp := h.deltaRead ch o nowS
+  ((hp.1.touchExpire ch o.ttl nowS).touchMeta ch o.metaTTL nowS).addCore ch pub o hp.2
 
 /-- `historyHub.remove` -/
 def Hub.remove (h : Hub) (ch : String) : Hub :=
